@@ -1685,7 +1685,27 @@ class Interp:
                 raise Unsupported("with statement (%s)" % src[:40])
             if item.optional_vars is not None:
                 self.assign(item.optional_vars, None, env)
-        self.exec_block(s.body, env)
+        trap = any(ast.unparse(it.context_expr).startswith(("np.errstate(", "numpy.errstate(")) and
+                   any(kw.arg in ("divide", "invalid", "all") and isinstance(kw.value, ast.Constant) and kw.value.value == "raise"
+                       for kw in getattr(it.context_expr, "keywords", [])) for it in s.items)
+        if not trap:
+            self.exec_block(s.body, env)
+            return
+        # floating-point traps enabled: arrays are lazy in the model, so everything computed in the block is forced before the
+        # block is left (a return inside the block included), with the trap flag set
+        from . import verify as _V
+        T.FP_RAISE[0] += 1
+        try:
+            try:
+                self.exec_block(s.body, env)
+            except _Return as r:
+                _V.force_value(r.v)
+                raise
+            finally:
+                for v in list(env.local.values()):
+                    _V.force_value(v)
+        finally:
+            T.FP_RAISE[0] -= 1
 
     def ex_Assign(self, s, env):
         v = self.ev(s.value, env)
